@@ -209,7 +209,7 @@ Section Cor.
     assert (Hdel : forall s f, r_frame (fst (deliver RS n s f)) = r_frame s).
     { intros. unfold deliver. reflexivity. }
     assert (Hbody : forall s k, r_frame (fst (body RS render n s k)) = r_frame s).
-    { intros s k. unfold body.
+    { intros s k. unfold body, render_frame.
       destruct (if cached s then match cache s k with Some e => if key_eqb e (rd s) (args s) then Some (ce_frame e) else None | None => None end else None).
       - apply Hdel.
       - destruct (render (rs s) (fo (rd s)) (wh (rd s)) (d_size (rd s)) (d_dur (rd s)) (args s)) as [[f| |e] r'].
